@@ -179,6 +179,30 @@ CHECKS = {
         note="adoption from the order stream is covered by C11",
         design="4/C15",
     ),
+    "C01": dict(
+        category="exploration",
+        technique="Hypothesis rule-based state machine (stepped simulation, default controls, no forcing) with a brute-force "
+                  "exposure oracle (all fill subsets x all winner sets) at every accepted place / replace, plus a consequence "
+                  "invariant and realised P&L bound in acknowledgement-discipline runs",
+        text="Every accepted order is re-judged independently against the three configured limits counting it in full at its "
+             "(new) price; directed rules build two orders that fit a limit individually but not together with a request in "
+             "flight on the first. The replace-at-old-price defect is recorded and reported as KNOWN-FINDING. Held otherwise "
+             "on everything explored.",
+        note="only the 'only if' direction is judged; the decision is judged on the outcome the new order can worsen; each-way and "
+             "bet_target_size outside",
+        design="4/C01",
+    ),
+    "C18": dict(
+        category="exploration",
+        technique="Hypothesis rule-based state machine (stepped simulation, 1-2 clients with different limits, hour / day clock "
+                  "jumps, bulk transactions) compared after every request and step with a shadow counter and restart model",
+        text="Totals == executed place + replace instructions + FAILURE replies, hourly == the same since the modelled restart, "
+             "each request refused iff limit set and hourly > limit, forced requests never refused, clients independent. "
+             "Held on everything explored.",
+        note="concurrency inside add_transaction (the lock) is not reachable by generated schedules; handler-granularity "
+             "concurrency is covered on the live double",
+        design="4/C18",
+    ),
 }
 
 NOT_BUILT_REASON = "check not built yet (build in progress; see DESIGN.md section 4)"
